@@ -80,6 +80,7 @@ class Builder:
     def __init__(self, U_=None):
         self.leaves = []  # in construction order
         self.U = U_
+        self.shared = {}  # 'share' nodes: id -> the ONE object every occurrence stands for
 
     def leaf(self):
         obj = Leaf(len(self.leaves))
@@ -91,6 +92,10 @@ class Builder:
             return self.leaf()
         kind, params, ch = d
         params = params or {}
+        if kind == 'share':  # aliasing: every occurrence with the same id is the very same object (a DAG, not a tree)
+            if params['id'] not in self.shared:
+                self.shared[params['id']] = self.build(ch[0])
+            return self.shared[params['id']]
         if kind == 'int':  # a plain int leaf (for folds / ravel)
             return params['v']
         c = [self.build(x) for x in ch]
@@ -631,6 +636,27 @@ LEAFLESS_SHAPES = [
     ['deque', {'maxlen': None}, [['nt', None, []]]],
     ['nt', None, [['none', None, []]]],
 ]
+
+
+ALIAS_SHAPES = ['L', ['list', None, ['L']], ['dict', {'keys': ['k']}, ['L']], ['tuple', None, ['L', 'L']],
+                ['cn', {'meta': 'm'}, ['L']], ['odict', {'keys': ['z', 'a']}, ['L', 'L']], ['list', None, []]]
+
+
+def aliasing_trees():
+    """Inputs in which the same leaf object / the same container object occurs more than once (DAGs): optree treats
+    every occurrence as a separate subtree; an identity-keyed memo or a 'visited' set in a traversal would not."""
+    out = []
+    parents = [('tuple', None), ('list', None), ('dict', {'keys': ['b', 'a', 'c']}), ('odict', {'keys': ['b', 'a', 'c']}),
+               ('deque', {'maxlen': 'len+1'}), ('nt', None), ('cn', {'meta': 'm'}), ('cg', None),
+               ('ddict', {'keys': ['b', 'a', 'c'], 'factory': 'list'})]
+    for shape in ALIAS_SHAPES:
+        S = ['share', {'id': 1}, [shape]]
+        for pk, pv in parents:
+            out.append([pk, pv, [S, S, 'L']])
+            out.append([pk, pv, [S, 'L', S]])
+            out.append([pk, pv, [S, S, S]])
+            out.append([pk, pv, [S, ['list', None, [S, 'L']], ['tuple', None, [['dict', {'keys': ['q']}, [S]]]]]])
+    return out
 
 
 def leafless_trees():
